@@ -213,11 +213,17 @@ def dfa_to_gnfa(D: DFA) -> GNFA:
     q0 = D.q0
     F = D.F
 
-    # TODO: use an identifier generator to avoid name clashes
+    # choose names for the two new states that do not clash with the states of D
     q_start = State('start')
+    i = 0
+    while q_start in Q:
+        q_start = State('start{}'.format(i))
+        i += 1
     q_accept = State('accept')
-    assert q_start not in Q
-    assert q_accept not in Q
+    i = 0
+    while q_accept in Q:
+        q_accept = State('accept{}'.format(i))
+        i += 1
 
     Q1: Set[State] = Q | {q_accept, q_start}
     delta1 = defaultdict(lambda: regexp.Zero())  # MutableMapping[Tuple[State, State], regexp.Regexp]
